@@ -18,6 +18,7 @@ import tempfile
 from .. import core, cartio, refpng
 
 GEN = '''SPECIFICATION Spec
+CONSTANT MaxSpec = %d
 CONSTRAINT Emit
 CHECK_DEADLOCK FALSE
 '''
@@ -55,6 +56,8 @@ def sandbox(tmp):
     with open(os.path.join(S, 'prev.p8.png'), 'wb') as f:
         f.write(refpng.encode_png(160, 205, rows))
     gfile.to_file(cartio.make_game(mem_for('prev'), LUA['prev'], None, 8), os.path.join(S, 'prev.p8.png'))
+    from pico8.game import game as pgame
+    gfile.to_file(pgame.Game.make_empty_game(), os.path.join(S, 'e.p8'))      # a source cart whose sections are all blank
     with open(os.path.join(S, 'bad.txt'), 'wb') as f:
         f.write(b'not a cart')
     _SB['S'] = S
@@ -76,7 +79,7 @@ def _case(item):
     argv = ['--quiet', 'build', out]
     for s in SECS:
         a = cfg['args'][s]
-        src = {'p8': 'a.p8', 'png': 'b.p8.png', 'luafile': 'c.lua'}
+        src = {'p8': 'a.p8', 'png': 'b.p8.png', 'luafile': 'c.lua', 'blank': 'e.p8'}
         if a in src:
             argv += ['--' + s, os.path.join(S, src[a])]
         elif a == 'empty':
@@ -143,10 +146,10 @@ def _empty():
 def run(ctx):
     core.quiet_picotool()
     rnd = random.Random(ctx.seed)
-    ctx.rule = ('configurations printed by TLC from Build.tla: all 20480 valid assignments of {unspecified, .p8, .p8.png, empty, (lua: .lua)} to the six sections x OUT absent/existing x OUT format, '
-                'and 89088 with exactly one unusable argument; quick = all with <= 2 specified sections + random others; non-trivial = built, read back and provenance equal to the expectation')
+    ctx.rule = ('configurations printed by TLC from Build.tla: all valid assignments of {unspecified, .p8, .p8.png, a source whose section is blank, empty, (lua: .lua)} to the six sections x OUT absent/existing x OUT format, '
+                'and those with exactly one unusable argument; quick = all with <= 2 specified sections + random ones with 3; non-trivial = built, read back and provenance equal to the expectation')
     ctx.assumptions = ['contents are distinct per source and section, so provenance can be read off OUT', 'OUT is read back with picotool\'s own readers (their fidelity is C03 / C04 / C16)']
-    r = ctx.tlc('Build', GEN, name='GenBuild')
+    r = ctx.tlc('Build', GEN % (3 if ctx.quick else 6), name='GenBuild')
     seen = set()
     cfgs = []
     for x in r.jsons:
